@@ -196,7 +196,7 @@ def env():
     return e
 
 
-def kani_cmd(h, slot, json_out, playback=False):
+def kani_cmd(h, slot, json_out, playback=False, only_property=None):
     args = ["cargo", "kani", "--target-dir", os.path.join(TARGET, slot),
             "--harness", h["qual"], "--exact", "-Z", "stubbing", "-Z", "unstable-options"]
     if playback:
@@ -210,8 +210,13 @@ def kani_cmd(h, slot, json_out, playback=False):
         # one more "failing" property and one more SAT iteration; vacuity is guarded by the
         # explicit kani::cover! witnesses of each harness instead
         args += ["--output-format", "old", "--no-assertion-reach-checks"]
-    if h["cbmc"]:
-        args += ["--cbmc-args"] + h["cbmc"]
+    extra = list(h["cbmc"] or [])
+    if only_property:
+        # one property = one SAT call and one JSON trace: three failing assertions of a
+        # 21 M-variable harness made CBMC run out of memory while writing their traces
+        extra += ["--property", only_property]
+    if extra:
+        args += ["--cbmc-args"] + extra
     return args
 
 
@@ -518,19 +523,37 @@ def replay_job(job, lane=0):
     path = os.path.join(REPLAYS, job.prop, h["name"] + ".rs")
     rlog = os.path.join(LOGS, job.prop, h["name"] + ".replay.log")
     crate = replay_scratch("_%d" % lane)
-    cmd = kani_cmd(h, "%s%d" % (SLOT_PREFIX, lane), None, playback=True)
-    # the playback run uses Kani's regular mode: kani-driver keeps CBMC's whole JSON trace in
-    # memory, so it gets three times the harness's cap (at least 24 GB) and twice the time
-    shell = "ulimit -s unlimited 2>/dev/null; ulimit -v %d; exec timeout -k 15 %d %s" % (
-        max(h["mem"] * 3, 24) * 1024 * 1024, h["timeout"] * 2, " ".join(map(shquote, cmd)))
-    with open(rlog, "w") as lf:
-        subprocess.run(["bash", "-c", shell], cwd=crate, env=env(), stdout=lf, stderr=subprocess.STDOUT)
-    test = extract_playback_test(open(rlog, errors="replace").read())
+    first = next((c for c in job.fail_checks if c.get("category") != "cover"), None)
+    prop_id = "%s.%s.%d" % (first["function"], first["category"], first["n"]) if first else None
+    test = None
+    for only in ([prop_id, None] if prop_id else [None]):
+        test = run_playback(h, lane, crate, rlog, only)
+        if test:
+            break
     if not test:
         # the playback run could not hand back the solver's assignment (e.g. CBMC ran out of
         # memory while writing the JSON trace): inconclusive, never a pass
         shutil.rmtree(crate, ignore_errors=True)
         return path, None
+    return finish_replay(job, h, path, rlog, crate, lane, test)
+
+
+def run_playback(h, lane, crate, rlog, only_property):
+    cmd = kani_cmd(h, "%s%d" % (SLOT_PREFIX, lane), None, playback=True, only_property=only_property)
+    # the playback run uses Kani's regular mode: CBMC builds, and kani-driver keeps, the whole
+    # JSON trace in memory (a 7 GB plain run of 21 M variables failed under a 36 GB cap and
+    # succeeded under 48), so it gets four times the harness's cap (at least 48 GB of address
+    # space) and twice the time; replays run one at a time
+    shell = "ulimit -s unlimited 2>/dev/null; ulimit -v %d; exec timeout -k 15 %d %s" % (
+        max(h["mem"] * 4, 48) * 1024 * 1024, h["timeout"] * 2, " ".join(map(shquote, cmd)))
+    with open(rlog, "w") as lf:
+        lf.write("# playback%s\n" % (" restricted to property " + only_property if only_property else ""))
+        lf.flush()
+        subprocess.run(["bash", "-c", shell], cwd=crate, env=env(), stdout=lf, stderr=subprocess.STDOUT)
+    return extract_playback_test(open(rlog, errors="replace").read())
+
+
+def finish_replay(job, h, path, rlog, crate, lane, test):
     if h["twin"]:
         # the harness's oracle lives in a stub, which a native run does not have: feed the same
         # solver-chosen values to the hand-written native twin (same kani::any() sequence, real code)
@@ -763,7 +786,7 @@ def main():
                 extra = " unsatisfied witnesses: " + "; ".join(str(c.get("description")) for c in j.cover_bad)
             print("INCONCLUSIVE: harness %s ended as %s (log: %s)%s" % (j.h["name"], j.status, j.log, extra))
     # native replays, up to four side by side (each lane has its own scratch crate and target dirs)
-    LANES = 2  # a playback run (CBMC --json-ui with traces) can take 30 GB
+    LANES = 1  # a playback run (CBMC --json-ui with traces) can take 30+ GB
     results = {}
     lane_lock = threading.Lock()
     free_lanes = list(range(LANES))
